@@ -192,11 +192,21 @@ impl SearchFilters {
     fn special_filter_to_bytes(name: &str, filters: &HashMap<Discriminant<Filter>, Filter>) -> Vec<u8> {
         let mut bytes = Vec::new();
 
-        if !filters.is_empty() {
+        // only the filters that produce a pair count (an empty tag list produces none)
+        let pairs: Vec<Vec<u8>> = filters
+            .values()
+            .map(Filter::to_bytes)
+            .filter(|pair| !pair.is_empty())
+            .collect();
+
+        if !pairs.is_empty() {
+            // `\nand\N` / `\nor\N`: the following N pairs belong to the group
+            bytes.extend([b'\\']);
             bytes.extend(name.as_bytes());
-            bytes.extend(filters.len().to_string().as_bytes());
-            for filter in filters.values() {
-                bytes.extend(filter.to_bytes());
+            bytes.extend([b'\\']);
+            bytes.extend(pairs.len().to_string().as_bytes());
+            for pair in pairs {
+                bytes.extend(pair);
             }
         }
 
